@@ -775,7 +775,13 @@ func vNilPtrArm(k int) interface{} {
 // vArg_any: what Interface/Any/Type/Array.Interface distinguish (a LogObjectMarshaler or not;
 // everything else goes to InterfaceMarshalFunc, here the stub vMarshal).
 func vArg_any() interface{} {
-	switch zzverif.Choice(7) {
+	switch zzverif.Choice(9) {
+	case 6:
+		// already-encoded JSON held in a json.RawMessage: a value like any other for Interface/Any
+		// (the marshal func renders it); nil and pretty-printed ones included
+		return json.RawMessage(nil)
+	case 7:
+		return json.RawMessage("{\n  \"a\": 1\n}")
 	case 5:
 		// a type whose NAME contains quotes and backslashes (anonymous struct with a field tag)
 		return struct {
